@@ -135,8 +135,8 @@ Qed.
 Lemma pad8_ge n : n <= pad8 n.
 Proof. unfold pad8. lia. Qed.
 
-Lemma datatype_roundtrip x : wf_datatype x = true ->
-  dec_datatype (enc_datatype x) = Ok (proj_datatype x).
+Lemma datatype_roundtrip_gen rep x : wf_datatype x = true ->
+  dec_datatype (enc_datatype_gen rep x) = Ok (proj_datatype x).
 Proof.
   unfold wf_datatype. intros H.
   apply andb_true_iff in H as [H Hopq]. apply andb_true_iff in H as [H Hcmp].
@@ -152,7 +152,7 @@ Proof.
     destruct (c =? 7); auto. destruct (c =? 5); auto. destruct (c =? 6); auto. }
   unfold dec_datatype.
   destruct Hc as [-> | [-> | [-> | [-> | [-> | [-> | ->]]]]]]; [| | | | | |exfalso; apply Hnv; reflexivity];
-    unfold enc_datatype, proj_datatype; cbn [dt_class dt_version dt_size dt_cbf dt_props];
+    unfold enc_datatype_gen, proj_datatype; cbn [dt_class dt_version dt_size dt_cbf dt_props];
     cbv [DT_FIXED DT_FLOAT DT_STRING DT_REFERENCE DT_OPAQUE DT_COMPOUND DT_VLEN] in *;
     cbn [N.eqb Pos.eqb orb] in *.
   - (* fixed *)
@@ -182,7 +182,11 @@ Proof.
     + rewrite N.ltb_irrefl, firstn_blen. reflexivity.
 Qed.
 
-Lemma datatype_blen x : wf_datatype x = true -> blen (enc_datatype x) = size_datatype x.
+Lemma datatype_roundtrip x : wf_datatype x = true ->
+  dec_datatype (enc_datatype x) = Ok (proj_datatype x).
+Proof. apply datatype_roundtrip_gen. Qed.
+
+Lemma datatype_blen_gen rep x : wf_datatype x = true -> blen (enc_datatype_gen rep x) = size_datatype_gen rep x.
 Proof.
   unfold wf_datatype. intros H.
   apply andb_true_iff in H as [H Hopq]. apply andb_true_iff in H as [H Hcmp].
@@ -197,7 +201,7 @@ Proof.
     destruct (c =? 0); auto. destruct (c =? 1); auto. destruct (c =? 3); auto.
     destruct (c =? 7); auto. destruct (c =? 5); auto. destruct (c =? 6); auto. }
   destruct Hc as [-> | [-> | [-> | [-> | [-> | [-> | ->]]]]]]; [| | | | | |exfalso; apply Hnv; reflexivity];
-    unfold enc_datatype, size_datatype; cbn [dt_class dt_version dt_size dt_cbf dt_props];
+    unfold enc_datatype_gen, size_datatype_gen; cbn [dt_class dt_version dt_size dt_cbf dt_props];
     cbv [DT_FIXED DT_FLOAT DT_STRING DT_REFERENCE DT_OPAQUE DT_COMPOUND DT_VLEN] in *;
     cbn [N.eqb Pos.eqb orb] in *;
     rewrite ?blen_app, ?blen_dt_header, ?blen_zeros; try reflexivity.
@@ -205,10 +209,29 @@ Proof.
   all: pose proof (pad8_ge (blen P)); blia.
 Qed.
 
-(* D10: the variable-length datatype header does not survive decode(encode x) *)
+Lemma datatype_blen x : wf_datatype x = true -> blen (enc_datatype x) = size_datatype x.
+Proof. apply datatype_blen_gen. Qed.
+
+(* variable-length types under the repaired header layout *)
+Lemma vlen_repaired_roundtrip x : wf_vlen x = true ->
+  dec_datatype (enc_datatype_gen true x) = Ok (proj_vlen x).
+Proof.
+  unfold wf_vlen. intros H.
+  apply andb_true_iff in H as [H Hcbf]. apply andb_true_iff in H as [H Hsize].
+  apply andb_true_iff in H as [Hc Hs0]. apply N.eqb_eq in Hc. apply N.ltb_lt in Hcbf, Hsize.
+  destruct x as [c v size b P]; cbn [dt_class dt_version dt_size dt_cbf dt_props] in *. subst c.
+  unfold dec_datatype, enc_datatype_gen, proj_vlen. cbn [dt_class dt_version dt_size dt_cbf dt_props].
+  cbv [DT_FIXED DT_FLOAT DT_STRING DT_REFERENCE DT_OPAQUE DT_COMPOUND DT_VLEN vlen_repaired_version].
+  cbn [N.eqb Pos.eqb orb]. cbn [length].
+  rewrite dec_dt_header by (auto; lia).
+  unfold plen. cbv [DT_FIXED DT_FLOAT DT_BITFIELD DT_TIME DT_COMPOUND]. cbn [N.eqb Pos.eqb obind].
+  rewrite N.ltb_irrefl, firstn_blen. reflexivity.
+Qed.
+
+(* D10: the variable-length datatype header as written now does not survive decode(encode x) *)
 Lemma vlen_refuted :
   exists x, dt_class x = DT_VLEN /\ encok_datatype x = true /\
-            match dec_datatype (enc_datatype x) with
+            match dec_datatype (enc_datatype_gen false x) with
             | Ok y => transported x y = false
             | _ => True
             end.
